@@ -167,7 +167,10 @@ func check(ref *dns.Msg, c qcase, res dnsfix.Result, obs *observation) (fs []fin
 		case !back.Truncated:
 			add("size/udp", "reply of %d bytes exceeds the %d bytes the client can take and TC is not set", len(wire), limit)
 		default:
+			// TC is set, yet the datagram is larger than the client can take: "truncated" that does
+			// not fit. Kept apart from size/udp because it rests on reading "truncated" as "cut to size".
 			obs.tcOversize = true
+			add("size/udp-over-limit-despite-tc", "reply of %d bytes exceeds the %d bytes the client can take although TC is set", len(wire), limit)
 		}
 	}
 	// EDNS version
